@@ -420,6 +420,7 @@ class Engine:
         self.contracted = ()
         self.not_discharged = set()
         self.slow_budget_s = 900.0        # per unit: total time for solver calls beyond the 3 s attempt
+        self.name_real_quotients = False  # opt-in per unit: a / b with symbolic b named q with q * b = a (b != 0 on the path)
         self.summaries_used = set()
         self.notes = []
         self.rechecked = {}
@@ -2246,6 +2247,9 @@ class Engine:
                 bb = to_cx(b)
                 if self.decide(b_and(r_cmp('==', bb.re, 0), r_cmp('==', bb.im, 0))):
                     raise PyRaise('ZeroDivisionError', ())
+                if getattr(self, 'name_real_quotients', False) and not isinstance(bb.im, SV) and bb.im == 0 and isinstance(bb.re, SV):
+                    aa_ = to_cx(a)
+                    return CX(self.real_quot(aa_.re, bb.re), self.real_quot(aa_.im, bb.re))
                 q = c_div(a, b)
                 if isinstance(bb.im, SV) and isinstance(q.re, SV) and isinstance(q.im, SV):
                     # name the quotient and hand the solver the (derived) product form q*b = a; b != 0 on this path
@@ -2260,6 +2264,8 @@ class Engine:
                 return q
             if self.decide(r_cmp('==', b, 0)):
                 raise PyRaise('ZeroDivisionError', ())
+            if getattr(self, 'name_real_quotients', False) and isinstance(b, SV) and b.kind != 'bool' and is_reallike(a):
+                return self.real_quot(a, b)
             return r_div(a, b)
         if isinstance(op, ast.Pow):
             return self.power(a, b)
@@ -2384,6 +2390,24 @@ class Engine:
         if args:
             raise PyRaise('TypeError', ('not all arguments converted during string formatting',))
         return AStr(toks)
+
+    def real_quot(self, a, b):
+        """a / b for symbolic real b that is non-zero on this path, named by its defining product: q * b = a (and
+        q = a / b, so that z3 still sees the division)"""
+        if not isinstance(a, SV) and a == 0:
+            return 0
+        key = (term(a, True).get_id(), term(b, True).get_id())
+        cache = self.__dict__.setdefault('_rq_cache', {})
+        hit = cache.get(key)
+        if hit is not None and hit[1] < len(self.pc) + 1 and hit[2] < len(self.pc) and self.pc[hit[2]] is hit[3]:
+            return hit[0]
+        self._qn = getattr(self, '_qn', 0) + 1
+        q = z3.Real('rquot%d' % self._qn)
+        fact = z3.And(q * term(b, True) == term(a, True), q == term(a, True) / term(b, True))
+        self.pc.append(fact)
+        r = SV(q, 'real')
+        cache[key] = (r, len(self.pc), len(self.pc) - 1, fact)
+        return r
 
     def digit_format(self, fmt, args):
         """digit-string mode (pyvc/digits.py): `'%% .%df' % prec` with a symbolic precision is made concrete by forking;
